@@ -232,6 +232,9 @@ func (c *SpecCtx) coerce(v Value, vt types.Type, t types.Type) *Node {
 		}
 		return c.e.ar.lit(cv.V, t)
 	}
+	if _, isNil := v.(nilV); isNil {
+		return IntLit(0)
+	}
 	n, ok := v.(*Node)
 	if !ok {
 		c.fail("expected scalar, got %T", v)
@@ -461,6 +464,22 @@ func (e *Exec) cellByName(name string) (Value, types.Type, bool) {
 					return e.regs[a], derefType(a.Type()), true
 				}
 			}
+		}
+	}
+	if n > 1 && e.curSitePos.IsValid() {
+		// at a site: the lexically nearest declaration before the site
+		var best *ssa.Alloc
+		for _, b := range e.fn.Blocks {
+			for _, ins := range b.Instrs {
+				if a, ok := ins.(*ssa.Alloc); ok && a.Comment == name && a.Pos().IsValid() && a.Pos() <= e.curSitePos {
+					if _, have := e.regs[a]; have && (best == nil || a.Pos() > best.Pos()) {
+						best = a
+					}
+				}
+			}
+		}
+		if best != nil {
+			return e.regs[best], derefType(best.Type()), true
 		}
 	}
 	if n > 1 {
@@ -859,6 +878,9 @@ func (c *SpecCtx) callExpr(x *ast.CallExpr, sn *SpecNode) (Value, types.Type) {
 			default:
 				return strPredicate("str.suffixof", "uf_strSuffix", b, a), types.Typ[types.Bool]
 			}
+		case "chclosed":
+			cv, _ := c.expr(x.Args[0], sn)
+			return e.chanClosed(c.st, cv.(*Node)), types.Typ[types.Bool]
 		case "inmap":
 			mv, mt := c.expr(x.Args[0], sn)
 			kv, kt := c.expr(x.Args[1], sn)
